@@ -157,71 +157,99 @@ struct DecodedFile {
   ref::Table table;
 };
 
+// What the structural checks need from one decoded table; tables are immutable once written, so the
+// summary is cached per (number, size) within a case and every table is re-decoded at the final check.
+struct TableSummary {
+  uint64_t size = 0;
+  std::string first, last;                                   // internal keys
+  struct UserRange { std::string user; uint64_t minseq, maxseq; };
+  std::vector<UserRange> users;                              // in file order
+};
+typedef std::map<uint64_t, TableSummary> SummaryCache;
+
+inline bool summarise_table(const std::string &bytes, uint64_t number, CmpKind ck, TableSummary *out, std::string *why) {
+  ref::Table t;
+  std::string err;
+  if (!ref::table_decode(bytes, &t, &err)) { *why = sfmt("C14: table #%llu does not decode with the reference reader: %s", (unsigned long long)number, err.c_str()); return false; }
+  auto &es = t.entries;
+  if (es.empty()) { *why = sfmt("C14: table #%llu in the layout holds no entries", (unsigned long long)number); return false; }
+  for (size_t i = 0; i < es.size(); i++) {
+    if (es[i].key.size() < 8) { *why = sfmt("C14: table #%llu entry %zu has a key shorter than 8 bytes", (unsigned long long)number, i); return false; }
+    if (i > 0 && ikey_cmp(ck, es[i - 1].key, es[i].key) >= 0) {
+      *why = sfmt("C14: table #%llu entries %zu,%zu are not strictly increasing (%s then %s)", (unsigned long long)number, i - 1, i,
+                  ikey_debug(es[i - 1].key).c_str(), ikey_debug(es[i].key).c_str());
+      return false;
+    }
+    std::string user = es[i].key.substr(0, es[i].key.size() - 8);
+    uint64_t seq = ref::get_fixed64((const uint8_t *)es[i].key.data() + es[i].key.size() - 8) >> 8;
+    if (!out->users.empty() && out->users.back().user == user) {
+      if (seq < out->users.back().minseq) out->users.back().minseq = seq;
+      if (seq > out->users.back().maxseq) out->users.back().maxseq = seq;
+    } else {
+      out->users.push_back(TableSummary::UserRange{user, seq, seq});
+    }
+  }
+  out->size = bytes.size();
+  out->first = es.front().key;
+  out->last = es.back().key;
+  return true;
+}
+
 // Returns false with *why = "C14: ..." / "C13: ..." on the first problem.
-inline bool layout_deep_check(const Layout &L, const std::string &dir, CmpKind ck, std::string *why,
-                              std::vector<DecodedFile> *decoded_out = nullptr) {
+inline bool layout_deep_check(const Layout &L, const std::string &dir, CmpKind ck, std::string *why, SummaryCache *cache = nullptr) {
   struct Src { int level; uint64_t number; uint64_t minseq, maxseq; };
   std::map<std::string, std::vector<Src>> per_user;
+  SummaryCache local;
+  if (!cache) cache = &local;
   for (int lv = 0; lv < 7; lv++) {
     const std::string *prev_largest = nullptr;
-    std::string prev_storage;
     for (auto &f : L.levels[lv]) {
-      std::string path = dir + sfmt("/%06llu.ldb", (unsigned long long)f.number), bytes;
-      if (!read_file(path, bytes)) {
-        path = dir + sfmt("/%06llu.sst", (unsigned long long)f.number);
-        if (!read_file(path, bytes)) { *why = sfmt("C13: table #%llu of the layout is missing on disk", (unsigned long long)f.number); return false; }
+      std::string path = dir + sfmt("/%06llu.ldb", (unsigned long long)f.number);
+      long long sz = file_size(path);
+      if (sz < 0) { path = dir + sfmt("/%06llu.sst", (unsigned long long)f.number); sz = file_size(path); }
+      if (sz < 0) { *why = sfmt("C13: table #%llu of the layout is missing on disk", (unsigned long long)f.number); return false; }
+      if ((uint64_t)sz != f.size) { *why = sfmt("C14: table #%llu stated size %llu but file has %lld bytes", (unsigned long long)f.number, (unsigned long long)f.size, sz); return false; }
+      auto it = cache->find(f.number);
+      if (it == cache->end() || it->second.size != (uint64_t)sz) {
+        std::string bytes;
+        if (!read_file(path, bytes)) { *why = sfmt("C13: table #%llu of the layout cannot be read", (unsigned long long)f.number); return false; }
+        TableSummary ts;
+        if (!summarise_table(bytes, f.number, ck, &ts, why)) return false;
+        (*cache)[f.number] = std::move(ts);
+        it = cache->find(f.number);
       }
-      if (bytes.size() != f.size) { *why = sfmt("C14: table #%llu stated size %llu but file has %zu bytes", (unsigned long long)f.number, (unsigned long long)f.size, bytes.size()); return false; }
-      DecodedFile df;
-      df.number = f.number;
-      df.level = lv;
-      std::string err;
-      if (!ref::table_decode(bytes, &df.table, &err)) { *why = sfmt("C14: table #%llu does not decode with the reference reader: %s", (unsigned long long)f.number, err.c_str()); return false; }
-      auto &es = df.table.entries;
-      if (es.empty()) { *why = sfmt("C14: table #%llu in the layout holds no entries", (unsigned long long)f.number); return false; }
-      for (size_t i = 0; i < es.size(); i++) {
-        if (es[i].key.size() < 8) { *why = sfmt("C14: table #%llu entry %zu has a key shorter than 8 bytes", (unsigned long long)f.number, i); return false; }
-        if (i > 0 && ikey_cmp(ck, es[i - 1].key, es[i].key) >= 0) {
-          *why = sfmt("C14: table #%llu entries %zu,%zu are not strictly increasing (%s then %s)", (unsigned long long)f.number, i - 1, i,
-                      ikey_debug(es[i - 1].key).c_str(), ikey_debug(es[i].key).c_str());
-          return false;
-        }
-      }
-      if (ikey_debug(es.front().key) != f.smallest) {
-        *why = sfmt("C14: table #%llu stated smallest %s but first entry is %s", (unsigned long long)f.number, f.smallest.c_str(), ikey_debug(es.front().key).c_str());
+      const TableSummary &ts = it->second;
+      if (ikey_debug(ts.first) != f.smallest) {
+        *why = sfmt("C14: table #%llu stated smallest %s but first entry is %s", (unsigned long long)f.number, f.smallest.c_str(), ikey_debug(ts.first).c_str());
         return false;
       }
-      if (ikey_debug(es.back().key) != f.largest) {
-        *why = sfmt("C14: table #%llu stated largest %s but last entry is %s", (unsigned long long)f.number, f.largest.c_str(), ikey_debug(es.back().key).c_str());
+      if (ikey_debug(ts.last) != f.largest) {
+        *why = sfmt("C14: table #%llu stated largest %s but last entry is %s", (unsigned long long)f.number, f.largest.c_str(), ikey_debug(ts.last).c_str());
         return false;
       }
       if (lv >= 1 && prev_largest) {
-        if (ikey_cmp(ck, *prev_largest, es.front().key) >= 0) {
+        if (ikey_cmp(ck, *prev_largest, ts.first) >= 0) {
           *why = sfmt("C14: level %d files overlap or are unsorted: previous largest %s, table #%llu smallest %s", lv,
-                      ikey_debug(*prev_largest).c_str(), (unsigned long long)f.number, ikey_debug(es.front().key).c_str());
+                      ikey_debug(*prev_largest).c_str(), (unsigned long long)f.number, ikey_debug(ts.first).c_str());
           return false;
         }
       }
-      prev_storage = es.back().key;
-      prev_largest = &prev_storage;
-      // per-user-key sequence ranges of this file
-      for (size_t i = 0; i < es.size(); i++) {
-        std::string user = es[i].key.substr(0, es[i].key.size() - 8);
-        uint64_t seq = ref::get_fixed64((const uint8_t *)es[i].key.data() + es[i].key.size() - 8) >> 8;
-        auto &v = per_user[user];
-        if (!v.empty() && v.back().level == lv && (lv >= 1 || v.back().number == f.number)) {
-          if (seq < v.back().minseq) v.back().minseq = seq;
-          if (seq > v.back().maxseq) v.back().maxseq = seq;
+      prev_largest = &ts.last;
+      for (auto &u : ts.users) {
+        auto &v = per_user[u.user];
+        if (!v.empty() && v.back().level == lv && lv >= 1) {
+          if (u.minseq < v.back().minseq) v.back().minseq = u.minseq;
+          if (u.maxseq > v.back().maxseq) v.back().maxseq = u.maxseq;
         } else {
-          v.push_back(Src{lv, f.number, seq, seq});
+          v.push_back(Src{lv, f.number, u.minseq, u.maxseq});
         }
       }
-      if (decoded_out) decoded_out->push_back(std::move(df));
     }
   }
   // recency: level 0 by file number descending, then level 1, 2, ...
   for (auto &p : per_user) {
     auto v = p.second;
+    if (v.size() < 2) continue;
     std::stable_sort(v.begin(), v.end(), [](const Src &a, const Src &b) {
       if (a.level != b.level) return a.level < b.level;
       if (a.level == 0) return a.number > b.number;
